@@ -1,8 +1,9 @@
 package gen
 
 // PayloadClasses are the content classes of segment payloads / compressor inputs: ratios from
-// below 1 (incompressible) to about 250:1.
-var PayloadClasses = []string{"zeros", "p1", "p2", "p3", "p7", "p16", "p255", "p256", "p1000", "text", "random", "halfrandom"}
+// below 1 (incompressible) to about 250:1; p65535..p65537 are incompressible blocks repeated at the
+// edge of LZ4's 64 KiB match window (the longest legal match distance is 65535).
+var PayloadClasses = []string{"zeros", "p1", "p2", "p3", "p7", "p16", "p255", "p256", "p1000", "text", "random", "halfrandom", "p65535", "p65536", "p65537"}
 
 // Payload builds n bytes of a content class.
 func Payload(n int, class string) []byte {
@@ -30,6 +31,12 @@ func Payload(n int, class string) []byte {
 		period = 256
 	case "p1000":
 		period = 1000
+	case "p65535":
+		period = 65535
+	case "p65536":
+		period = 65536
+	case "p65537":
+		period = 65537
 	case "text":
 		return Blob(n, 't')
 	case "random":
